@@ -78,6 +78,8 @@ impl<T> RawTable<T> {
     /// Erases an element from the table, dropping it in place.
     #[cfg_attr(feature = "inline-more", inline)]
     pub(crate) unsafe fn erase(&mut self, item: Bucket<T>) {
+        #[cfg(griddle_verif)]
+        let _span = crate::verif::Span::enter("erase", item.in_main as usize, self);
         if item.in_main {
             self.table.erase(item.bucket);
         } else if let Some(ref mut lo) = self.leftovers {
@@ -92,6 +94,8 @@ impl<T> RawTable<T> {
     /// Removes an element from the table, returning it.
     #[cfg_attr(feature = "inline-more", inline)]
     pub(crate) unsafe fn remove(&mut self, item: Bucket<T>) -> T {
+        #[cfg(griddle_verif)]
+        let _span = crate::verif::Span::enter("remove", item.in_main as usize, self);
         if item.in_main {
             self.table.remove(item.bucket).0
         } else if let Some(ref mut lo) = self.leftovers {
@@ -122,6 +126,8 @@ impl<T> RawTable<T> {
     /// Removes all elements from the table without freeing the backing memory.
     #[cfg_attr(feature = "inline-more", inline)]
     pub(crate) fn clear(&mut self) {
+        #[cfg(griddle_verif)]
+        let _span = crate::verif::Span::enter("clear", 0, self);
         let _ = self.leftovers.take();
         self.table.clear();
     }
@@ -132,6 +138,8 @@ impl<T> RawTable<T> {
     /// current elements, as well as some additional elements due to incremental resizing.
     #[cfg_attr(feature = "inline-more", inline)]
     pub(crate) fn shrink_to(&mut self, min_size: usize, hasher: impl Fn(&T) -> u64) {
+        #[cfg(griddle_verif)]
+        let _span = crate::verif::Span::enter("shrink_to", min_size, self);
         // An old table that was emptied through `erase` or `replace_bucket_with` is still
         // around, but there is nothing left to move out of it: the resize is complete.
         // Drop it now -- we reserve no room for it below, and `insert` relies on there
@@ -162,6 +170,8 @@ impl<T> RawTable<T> {
     /// While we try to make this incremental where possible, it may require all-at-once resizing.
     #[cfg_attr(feature = "inline-more", inline)]
     pub(crate) fn reserve(&mut self, additional: usize, hasher: impl Fn(&T) -> u64) {
+        #[cfg(griddle_verif)]
+        let _span = crate::verif::Span::enter("reserve", additional, self);
         let need = match self
             .leftovers
             .as_ref()
@@ -213,6 +223,8 @@ impl<T> RawTable<T> {
         additional: usize,
         hasher: impl Fn(&T) -> u64,
     ) -> Result<(), TryReserveError> {
+        #[cfg(griddle_verif)]
+        let _span = crate::verif::Span::enter("try_reserve", additional, self);
         let need = self
             .leftovers
             .as_ref()
@@ -250,6 +262,8 @@ impl<T> RawTable<T> {
     /// This does not check if the given element already exists in the table.
     #[cfg_attr(feature = "inline-more", inline)]
     pub(crate) fn insert(&mut self, hash: u64, value: T, hasher: impl Fn(&T) -> u64) -> Bucket<T> {
+        #[cfg(griddle_verif)]
+        let _span = crate::verif::Span::enter("insert", 0, self);
         if self.table.capacity() == self.table.len() {
             assert!(self.leftovers.is_none());
             // Even though this _may_ succeed without growing due to tombstones, handling
@@ -316,6 +330,8 @@ impl<T> RawTable<T> {
     where
         F: FnOnce(T) -> Option<T>,
     {
+        #[cfg(griddle_verif)]
+        let _span = crate::verif::Span::enter("replace_bucket_with", bucket.in_main as usize, self);
         if bucket.in_main {
             self.table.replace_bucket_with(bucket.bucket, f)
         } else if let Some(ref mut lo) = self.leftovers {
@@ -456,6 +472,8 @@ fn and_carry_with_hasher<T: Clone>(
 impl<T: Clone> RawTable<T> {
     /// Variant of `clone_from` to use when a hasher is available.
     pub(crate) fn clone_from_with_hasher(&mut self, source: &Self, hasher: impl Fn(&T) -> u64) {
+        #[cfg(griddle_verif)]
+        let _verif_dest = self.verif_counters();
         let _ = self.leftovers.take();
         if self.table.len() == 0 {
             // hashbrown's `clone_from_with_hasher` may reuse our allocation, and then
@@ -480,6 +498,10 @@ impl<T: Clone> RawTable<T> {
         mem::forget(guard);
         // Since we're doing the work of cloning anyway, we might as well carry the leftovers.
         and_carry_with_hasher(&mut self.table, &source.leftovers, hasher);
+        #[cfg(griddle_verif)]
+        if crate::verif::tracing() {
+            crate::verif::write_record("clone_from", 0, R, source.verif_counters(), Some(_verif_dest), self.verif_counters());
+        }
     }
 
     /// Variant of `clone` to use when a hasher is available.
@@ -487,6 +509,11 @@ impl<T: Clone> RawTable<T> {
         let mut table = self.table.clone();
         // Since we're doing the work of cloning anyway, we might as well carry the leftovers.
         and_carry_with_hasher(&mut table, &self.leftovers, hasher);
+        #[cfg(griddle_verif)]
+        if crate::verif::tracing() {
+            let new = [table.buckets(), table.len(), table.capacity(), 0, 0, 0, 0];
+            crate::verif::write_record("clone", 0, R, self.verif_counters(), None, new);
+        }
         RawTable {
             table,
             leftovers: None,
@@ -581,6 +608,8 @@ impl<T> RawTable<T> {
     #[cold]
     #[inline(never)]
     pub(crate) fn carry(&mut self, hasher: impl Fn(&T) -> u64) {
+        #[cfg(griddle_verif)]
+        let _span = crate::verif::Span::enter("carry", 0, self);
         if let Some(ref mut lo) = self.leftovers {
             for _ in 0..R {
                 // It is safe to continue to access this iterator because:
@@ -848,6 +877,23 @@ impl<T> RawTable<T> {
     /// The incremental-resize quota `R` this build was compiled with.
     pub(crate) fn verif_r() -> usize {
         R
+    }
+
+    /// `[main buckets, main len, main capacity, split, old buckets, old len, cursor count]`
+    pub(crate) fn verif_counters(&self) -> crate::verif::Counters {
+        let (ob, ol, oc) = self
+            .leftovers
+            .as_ref()
+            .map_or((0, 0, 0), |lo| (lo.table.buckets(), lo.table.len(), lo.items.len()));
+        [
+            self.table.buckets(),
+            self.table.len(),
+            self.table.capacity(),
+            self.leftovers.is_some() as usize,
+            ob,
+            ol,
+            oc,
+        ]
     }
 
     /// `(len, capacity, buckets)` of the main table.
